@@ -30,7 +30,7 @@ import os
 import shutil
 import tempfile
 
-from vf.engines.fsfault import Crash, FaultFS, crash_points, restore_tree, snapshot_tree
+from vf.engines.fsfault import Crash, FaultFS, crash_points, report_escapes, restore_tree, selftest_or_inconclusive
 
 LEVEL = "fault_enumeration"
 ENGINE = "E3-fsfault"
@@ -255,7 +255,11 @@ class World:
                           self.witness({"crash_point": point, "interrupted_write": data}))
             return
         # reboot: fresh LogFile on the left-over directory, force further rotations over the gaps
-        base = concat
+        with FaultFS(self.root):  # unarmed: containment guard
+            self.reboot_and_write(point, concat)
+
+    def reboot_and_write(self, point, base):
+        ctx = self.ctx
         lf = self.make()
         extra = b""
         step = (self.L or 7) + 1
@@ -324,11 +328,14 @@ def run_history(ctx, hid, crash):
                 w2.check_after_crash((j, k, kind, detail, plen))
     finally:
         shutil.rmtree(root, ignore_errors=True)
+        report_escapes(ctx, hid)
 
 
 def run(ctx):
-    n_crash = ctx.size(200, 20000)
-    for hid in ctx.cases(2000, 200000):
+    if not selftest_or_inconclusive(ctx):
+        return
+    n_crash = ctx.size(150, 10000)
+    for hid in ctx.cases(1200, 100000):
         run_history(ctx, hid, crash=hid < n_crash)
 
 
